@@ -188,6 +188,12 @@ def check_registrations(_):
     a.set_function('ONLYA', lambda *x: 1)
     a.set_variable('TRUE', 'shadowed')
     a.set_function('SUM', lambda *x: 'overridden')
+    # names shaped like cell references, function names shaped like built-ins / cells: registering them on a changes how
+    # nothing is read on b (the token language is not per parser)
+    for n in ('A1', 'B2', 'a1', 'Q1', 'TAX2020', 'x', 'e', 'PI'):
+        a.set_variable(n, 77)
+    a.set_function('A1', lambda *x: 78)
+    a.set_function('MAX', lambda *x: 79)
     # ... and USED on parser a (a memo filled at first use would leak them)
     used = [outcome(a, f) for f in ('ONLYA()+onlya', 'SUM(1,2)', 'TRUE', 'ONLYA()', 'SUM(ONLYA())')]
     if used[1] != (('T', 'overridden'), None) or used[3] != (('I', 1), None):
@@ -195,7 +201,9 @@ def check_registrations(_):
     calls = []
     for ev in ('callVariable', 'callFunction', 'callCellValue', 'callRangeValue'):
         a.on(ev, lambda *args: calls.append(args))
-    for f, want in (('onlya', (('N',), '#NAME?')), ('ONLYA()', (('N',), '#NAME?')), ('TRUE', (('B', 1), None)), ('A1', (('N',), None)), ('SUM(1,2)', (('I', 3), None)), ('A1:B2', (('N',), None))):
+    for f, want in (('onlya', (('N',), '#NAME?')), ('ONLYA()', (('N',), '#NAME?')), ('TRUE', (('B', 1), None)), ('A1', (('N',), None)), ('SUM(1,2)', (('I', 3), None)), ('A1:B2', (('N',), None)),
+                    ('Q1', (('N',), None)), ('a1', (('N',), None)), ('B2+1', (('I', 1), None)), ('TAX2020', (('N',), None)), ('x', (('N',), '#NAME?')), ('MAX(1,2)', (('I', 2), None)),
+                    ('A1(1)', (('N',), '#NAME?')), ('SUM(Q1:Q4)', (('I', 0), None))):
         got = outcome(b, f)
         if got != want:
             out.append(('registered on parser a, evaluated on parser b: %s' % f, None, repr(want), repr(got)))
